@@ -1,5 +1,6 @@
 CONSTANTS
     K = 3
+    Bases = {"idle"}
     Bug = {}
 SPECIFICATION GSpec
 VIEW View
